@@ -482,7 +482,8 @@ class C08(ArtifactCheck):
     need = ('interpolants',)
     kinds = ('itp',)
     report = ('itp-request-rejected', 'itp-not-implied-by-A', 'itp-consistent-with-B', 'itp-foreign-symbol')
-    hist_kw = dict(unsat_bias=0.5, all_named=True, defines=0.0, queries=(('get-interpolants', 1.0),), itp_binary=0.85, p_push=0.14, p_pop=0.12, reassert=0.2, clausal=0.3)
+    hist_kw = dict(unsat_bias=0.5, all_named=True, defines=0.0, queries=(('get-interpolants', 1.0),), itp_binary=0.85, p_push=0.14, p_pop=0.12, reassert=0.2, clausal=0.3,
+                   nconsts=(4, 7))
     allow_nonincremental = False
     extra_options = staticmethod(cfg.itp_options)
     rule = ('unsat QF_UF / QF_LRA / QF_LIA histories with every assertion named, random A/B splits (names and (and ..) of names), all interpolation algorithms, strength factors, '
